@@ -14,7 +14,7 @@ theorem C02_order (i : MergeInput) (h : DomOrder i = true) (hs : i.k.isItemLevel
 
 /-- moves and swaps never add or lose an item, nor touch the multiset of children of any story,
     for EVERY input -/
-theorem C02_perm (i : MergeInput) (hs : i.k.isItemLevel = true) :
+theorem C02_perm (i : MergeInput) (_hs : i.k.isItemLevel = true) :
     holdsPerm i (addK i.k i.d i.m) = true :=
   perm_any i
 
